@@ -289,6 +289,13 @@ func (m *model) remaining(i int, group string, now time.Time) int64 {
 
 // ---- history -------------------------------------------------------------------
 
+// group header values: short ones, and two long ones (a bearer token, 180 characters) that differ in their last
+// character only - header-defined groups are keyed by the whole value
+var (
+	longGroup   = strings.Repeat("eyJhbGciOiJIUzI1NiJ9.", 8) + "c2lnbmF0dXJl"
+	groupValues = []string{"", "a", "b", longGroup + "1", "a", "b", longGroup + "2"}
+)
+
 type step struct {
 	Op    string        `json:"op"` // adv | edge (move to a window end of that quota +- D) | req | burst
 	D     time.Duration `json:"d,omitempty"`
@@ -316,16 +323,16 @@ func genSteps(c config) *rapid.Generator[[]step] {
 				out = append(out, step{Op: "adv", D: d})
 			case 3, 4:
 				out = append(out, step{Op: "edge", Level: rapid.IntRange(0, len(c.Nodes)-1).Draw(t, "elevel"),
-					Group: rapid.SampledFrom([]string{"", "a", "b"}).Draw(t, "egroup"),
+					Group: rapid.SampledFrom(groupValues).Draw(t, "egroup"),
 					D:     rapid.SampledFrom([]time.Duration{0, 0, -1, 1, -time.Millisecond, time.Millisecond}).Draw(t, "delta")})
 			default:
 				out = append(out, step{Op: "req", Level: rapid.IntRange(0, len(c.Nodes)-1).Draw(t, "level"),
-					Group: rapid.SampledFrom([]string{"", "a", "b"}).Draw(t, "group")})
+					Group: rapid.SampledFrom(groupValues).Draw(t, "group")})
 			}
 		}
 		if rapid.IntRange(0, 2).Draw(t, "burst") == 0 {
 			out = append(out, step{Op: "burst", Level: rapid.IntRange(0, len(c.Nodes)-1).Draw(t, "blevel"),
-				Group: rapid.SampledFrom([]string{"", "a"}).Draw(t, "bgroup"), N: rapid.IntRange(2, 12).Draw(t, "n")})
+				Group: rapid.SampledFrom(groupValues[:4]).Draw(t, "bgroup"), N: rapid.IntRange(2, 12).Draw(t, "n")})
 		}
 		return out
 	})
